@@ -125,12 +125,9 @@ Qed.
 Lemma recover_frame_b : forall c s l1 d, Inv s -> frame_b s l1 d ->
   NoDup (keys l1) -> keys l1 = keys (tabs s) ->
   (forall n t1, lookup n l1 = Some t1 -> part_rows (t_parts t1) = content s n) ->
-  match recover_c c d with
-  | RFail => False
-  | ROut r => good_recovery r (content s) (content s)
-  end.
+  recovers (recover_c c d) (content s).
 Proof.
-  intros c s l1 d I [Bt Bk Bc Bw Ba] ND K HR. unfold recover_c. rewrite Bt.
+  intros c s l1 d I [Bt Bk Bc Bw Ba] ND K HR. unfold recover_c.
   set (s1 := cd_db d).
   assert (Ekept : kept s1 = []).
   { unfold kept, cursor_of. fold s1 in Bc. rewrite Bc. rewrite filter_none; [reflexivity|].
@@ -139,15 +136,14 @@ Proof.
     { rewrite <- (i_ids _ I). apply in_map. exact HI. }
     rewrite (i_next _ I). clear - Hx. revert Hx. generalize (earliest s). induction (length (d_wal s)) as [|k IH]; cbn; intros a H; [tauto|].
     destruct H as [<-|H]; [lia|]. apply IH in H. lia. }
-  destruct (recover_durable c s1) as [[s' [R C]]|P].
+  destruct (recover_durable_nolog c s1) as [s' [R C]].
   - unfold s1. rewrite Bk. exact ND.
   - intros n t' L'. assert (HI : In n (keys l1)). { rewrite <- Bk. eapply lookup_some_in. exact L'. }
     destruct (lookup_in_some _ _ HI) as [t1 L1]. destruct (Ba _ _ L1) as [t'' [L'' [Hm Hf]]].
     fold s1 in L''. rewrite L' in L''. injection L'' as <-.
     exists (t_parts t1). rewrite Hm. apply restore_parts_spec. exact Hf.
-  - rewrite Ekept. exists 0, 0%nat. reflexivity.
-  - left. exists s'. split; auto. left. intro n. rewrite C, durable_wal_rows_kept, Ekept.
-    unfold wal_rows. cbn [flat_map]. rewrite app_nil_r. unfold view.
+  - exact Ekept.
+  - exists s'. split; auto. intro n. rewrite C. unfold view.
     destruct (lookup n l1) as [t1|] eqn:L1.
     + destruct (Ba _ _ L1) as [t' [L' [Hm Hf]]]. fold s1 in L'. rewrite L'.
       rewrite durable_part_rows_meta, Hm, (meta_rows_parts _ _ Hf). apply HR. exact L1.
@@ -156,17 +152,28 @@ Proof.
       rewrite L'. cbn. unfold content.
       assert (Ls : lookup n (tabs s) = None). { apply lookup_none. rewrite <- K. apply lookup_none. exact L1. }
       rewrite Ls. reflexivity.
-  - right. exact P.
 Qed.
 
 (* ---------------------------------------------------------------------------------------------- *)
 
-Theorem flush_cuts : forall c o s l1 k,
+(* the two kinds of directory a cut of a flush leaves *)
+Definition frame_b_ok (s : db) (l1 : tabsT) (d : cdisk) : Prop :=
+  frame_b s l1 d /\ NoDup (keys l1) /\ keys l1 = keys (tabs s) /\
+  (forall n t1, lookup n l1 = Some t1 -> part_rows (t_parts t1) = content s n).
+
+Definition flush_frame (s : db) (l1 : tabsT) (d : cdisk) : Prop := frame_a s d \/ frame_b_ok s l1 d.
+
+Lemma recover_flush_frame : forall c s l1 d, Inv s -> flush_frame s l1 d ->
+  good_recovery (recover_c c d) (content s).
+Proof.
+  intros c s l1 d I [FA|[FB [ND [K HR]]]].
+  - apply recover_frame_a; auto.
+  - left. eapply recover_frame_b; eauto.
+Qed.
+
+Theorem flush_cut_frame : forall c o s l1 k,
   Inv s -> flush_mid true c o s = Val l1 ->
-  match recover_c c (cut (at_rest s) (flush_effects s l1) k) with
-  | RFail => False
-  | ROut r => good_recovery r (content s) (content s)
-  end.
+  flush_frame s l1 (cut (at_rest s) (flush_effects s l1) k).
 Proof.
   intros c o s l1 k I H.
   destruct (flush_mid_spec _ _ _ _ I H) as [K HF].
@@ -205,13 +212,13 @@ Proof.
   remember (k - length (part_stores l1))%nat as j eqn:Ej.
   destruct j as [|j'].
   - (* not all stores done, or exactly all and nothing more *)
-    cbn [firstn fold_left]. apply recover_frame_a; auto.
+    cbn [firstn fold_left]. left. exact FA.
   - (* all stores done, the catalogue file replaced, some removals done *)
     assert (Hall : firstn k (part_stores l1) = part_stores l1).
     { apply firstn_all2. lia. }
     cbn [app firstn fold_left]. fold (apply_effs (apply_eff dA (EMetaStore (next_wal s) (new_metas l1)))
                                           (firstn j' (part_removes l1 ++ wal_removes (earliest s) (next_wal s)))).
-    apply (recover_frame_b c s l1); auto.
+    right. split; [|split; [exact ND1|split; [exact K|]]].
     + apply apply_removes_frame_b.
       * (* the state right after the catalogue file was replaced *)
         destruct FA as [Ft Fk Fc Fw Fa]. cbn [apply_eff].
@@ -249,22 +256,80 @@ Proof.
     + intros n t1 L1. destruct (MF _ _ L1) as [t [Lt [_ [_ _ _ Mr]]]]. rewrite Mr. unfold content. rewrite Lt. reflexivity.
 Qed.
 
-(* recovery's own effects (removal of segments below the cursor) change nothing: from any prefix of
-   them recovery gives the same *)
-Theorem recovery_cuts : forall c s k,
-  Inv s ->
-  match recover_c c (cut (at_rest s) (recover_effects s) k) with
-  | RFail => False
-  | ROut r => good_recovery r (content s) (content s)
-  end.
+Theorem flush_cuts : forall c o s l1 k,
+  Inv s -> flush_mid true c o s = Val l1 ->
+  good_recovery (recover_c c (cut (at_rest s) (flush_effects s l1) k)) (content s).
 Proof.
-  intros c s k I.
-  assert (E : recover_effects s = []).
-  { unfold recover_effects. rewrite filter_none; [reflexivity|].
-    intros x HI. apply N.ltb_ge.
-    assert (Ecur : match d_cursor s with Some k => k | None => 0 end = earliest s).
-    { pose proof (i_cursor _ I) as H. destruct (d_cursor s); congruence. }
-    rewrite Ecur. eapply seqN_ge. rewrite <- (i_ids _ I). apply in_map. exact HI. }
-  rewrite E. unfold cut. replace (firstn k []) with (@nil eff) by (destruct k; reflexivity).
+  intros c o s l1 k I H. eapply recover_flush_frame; [exact I|]. eapply flush_cut_frame; eauto.
+Qed.
+
+(* ---------------------------------------------------------------------------------------------- *)
+(* recovery's own effects: the removal of a leftover log temp file, then of the segments below the
+   cursor.  A crash during a recovery leaves a directory from which recovery gives the same. *)
+
+Lemma recover_effects_none : forall s w,
+  Inv s -> (forall x, In x w -> earliest s <= fst x) ->
+  recover_effects (with_wal s w) = [].
+Proof.
+  intros s w I H. unfold recover_effects. db_simpl. rewrite filter_none; [reflexivity|].
+  intros x HI. apply N.ltb_ge.
+  assert (Ecur : match d_cursor s with Some k => k | None => 0 end = earliest s).
+  { pose proof (i_cursor _ I) as Hc. destruct (d_cursor s); congruence. }
+  rewrite Ecur. apply H. exact HI.
+Qed.
+
+Lemma with_wal_same : forall s, with_wal s (d_wal s) = s.
+Proof. intro s. destruct s. reflexivity. Qed.
+
+Lemma wal_above_earliest : forall s x, Inv s -> In x (d_wal s) -> earliest s <= fst x.
+Proof. intros s x I HI. eapply seqN_ge. rewrite <- (i_ids _ I). apply in_map. exact HI. Qed.
+
+Lemma recover_effects_rest : forall s, Inv s -> recover_effects s = [].
+Proof.
+  intros s I. rewrite <- (with_wal_same s). apply recover_effects_none; auto.
+  intros x HI. apply wal_above_earliest; auto.
+Qed.
+
+(* from a state at rest recovery has nothing to remove *)
+Theorem recovery_cuts : forall c s k,
+  Inv s -> good_recovery (recover_c c (cut (at_rest s) (recover_effects_c (at_rest s)) k)) (content s).
+Proof.
+  intros c s k I. unfold recover_effects_c. cbn [at_rest cd_tmp cd_db app]. rewrite (recover_effects_rest _ I).
+  unfold cut. replace (firstn k []) with (@nil eff) by (destruct k; reflexivity).
   cbn. apply (recover_frame_a c s (at_rest s) I (frame_a_rest s)).
+Qed.
+
+(* from a cut of an ingestion it removes the temp file, if there is one: what recovery returns does
+   not depend on how far that got *)
+Theorem recovery_cuts_ingest : forall c s sg k j,
+  Inv s ->
+  let d := cut (at_rest s) [EWalTmpCreate (next_wal s); EWalTmpWrite (next_wal s) sg; EWalRename (next_wal s) sg] k in
+  recover_c c (cut d (recover_effects_c d) j) = recover_c c d.
+Proof.
+  intros c s sg k j I d.
+  assert (E : recover_effects (cd_db d) = []).
+  { destruct (ingest_cut_shape s (next_wal s) sg k) as [[_ E]|[_ [E _]]]; fold d in E; rewrite E.
+    - apply recover_effects_rest. exact I.
+    - apply recover_effects_none; auto. intros x HI. apply in_app_or in HI. destruct HI as [HI|[<-|[]]].
+      + apply wal_above_earliest; auto.
+      + cbn [fst]. rewrite (i_next _ I). lia. }
+  unfold recover_effects_c. rewrite E, app_nil_r. unfold recover_c. f_equal.
+  destruct (cd_tmp d); unfold cut, apply_effs; destruct j as [|j]; cbn [firstn fold_left apply_eff cd_db]; auto;
+    replace (firstn j []) with (@nil eff) by (destruct j; reflexivity); reflexivity.
+Qed.
+
+(* from a cut of a flush it removes the segments below the cursor: the directory stays one of the
+   two kinds a cut of the flush itself leaves *)
+Theorem recovery_cuts_flush : forall s l1 d j,
+  Inv s -> flush_frame s l1 d -> flush_frame s l1 (cut d (recover_effects_c d) j).
+Proof.
+  intros s l1 d j I [FA|[FB R]].
+  - left. unfold recover_effects_c. rewrite (fa_tmp _ _ FA). cbn [app].
+    assert (E : recover_effects (cd_db d) = []).
+    { unfold recover_effects. rewrite (fa_cursor _ _ FA), (fa_wal _ _ FA). apply (recover_effects_rest _ I). }
+    rewrite E. unfold cut. replace (firstn j []) with (@nil eff) by (destruct j; reflexivity). exact FA.
+  - right. split; [|exact R]. unfold recover_effects_c. rewrite (fb_tmp _ _ _ FB). cbn [app].
+    unfold cut. apply apply_removes_frame_b; [exact FB|].
+    intros e He. apply firstn_in in He. unfold recover_effects in He. apply in_map_iff in He.
+    destruct He as [x [<- _]]. exact Logic.I.
 Qed.
